@@ -1,6 +1,7 @@
 import Driver.Proto
 import Model.SafeFile
 import Model.SafeFileHist
+import Model.SafeFileKinds
 open Proto Safe
 
 /-! Model driver for C14.  Paths: 0 = destination, 1 = temporary file.  The buffer size of `bufio.NewWriterSize` comes
@@ -390,6 +391,79 @@ def histRun (um mode : Nat) (old : Option FileData) (toks : List Tok) (hf : HFau
   let ops := assignOps hf f0 0 (0, 0, 0, 0) toks
   (fs0, ops, apiRunFull codeStr tmpdirS dstS mode ops (fun i => i) ofaults fs0)
 
+/-! ### the same histories against the kernel with node kinds (`Model/SafeFileKinds.lean`) -/
+
+def tgtQ : Path := codeStr "/t/target".toList
+def parQ : Path := codeStr "/d".toList
+
+/-- the directory for an `old` spec: nodes, not flag bits; `noparent`: the destination's directory does not exist -/
+def parseOldK? (s : String) : Option (KFS × Bool) :=
+  let mk (d : Option Node) (t : Option Node) : KFS :=
+    fun p => if p = dstQ then d else if p = tgtQ then t else if p = parQ then some .dir else none
+  if s = "absent" then some (mk none none, false)
+  else if s = "noparent" then some (fun _ => none, true)
+  else if s = "dir" then some (mk (some .dir) none, false)
+  else if s = "dangling" then some (mk (some (.link tgtQ)) none, false)
+  else match s.splitOn ":" with
+    | ["file", n, m] => match n.toNat?, parseOct? m with
+      | some n, some m => some (mk (some (.file ⟨genBytes 0 n 7, m⟩)) none, false)
+      | _, _ => none
+    | ["link", n, m] => match n.toNat?, parseOct? m with
+      | some n, some m => some (mk (some (.link tgtQ)) (some (.file ⟨genBytes 0 n 7, m⟩)), false)
+      | _, _ => none
+    | _ => none
+
+def showNode : Option Node → String
+  | none => "absent"
+  | some .dir => "dir"
+  | some (.file d) => s!"{d.content.length}:{natToHex (fnv d.content).toNat}:{toOct d.mode}"
+  | some (.link _) => "absent"
+
+/-- what the harness prints for a path: the state a reader finds, `@` when the path itself is a symbolic link -/
+def showStateK (fs : KFS) (p : Path) : String :=
+  match fs p with
+  | some (.link t) => showNode (fs t) ++ "@"
+  | x => showNode x
+
+def showTmpK (fs : KFS) (acts : List Act2) : String :=
+  match tmpOf acts with
+  | some p => showStateK fs p
+  | none => "absent"
+
+structure HistK where
+  fs0 : KFS
+  ops : List OpU
+  created : Bool
+  res : List Res
+  acts : List Act2
+
+def histRunK (um mode : Nat) (fs0 : KFS) (_parentMissing : Bool) (toks : List Tok) (hf : HFaults) : HistK :=
+  let tmp := codeStr (tempName tmpdirS (dirOf dstS) safePattern 0)
+  let f0 : File := { tmp := tmp, dst := dstQ }
+  let ops := assignOps hf f0 0 (0, 0, 0, 0) toks
+  if hf.o = 1 then { fs0 := fs0, ops := ops, created := false, res := [], acts := [.openFail tmp mode false] }
+  else match createK tmp dstQ parQ mode fs0 with
+    | (none, acts) => { fs0 := fs0, ops := ops, created := false, res := [], acts := acts }
+    | (some f, acts) =>
+      let r := File.stepsK um (runK um fs0 acts) f ops
+      -- what strace shows: os.Rename's own refusal of a directory destination issues no rename(2)
+      { fs0 := fs0, ops := ops, created := true, res := r.2.1, acts := osRenameView um fs0 (acts ++ r.2.2) }
+
+/-- every prefix: what a reader of the destination finds is what it found before, or what it finds at the end -/
+def readerOkK (umask : Nat) (dq : Path) (fs0 : KFS) (acts : List Act2) : Bool :=
+  let final := (runK umask fs0 acts).read dq
+  let ok (fs : KFS) : Bool := fs.read dq = fs0.read dq ∨ fs.read dq = final
+  let rec go : KFS → List Act2 → Bool
+    | _, [] => true
+    | fs, a :: as =>
+      let fs' := applyActK umask fs a
+      ok fs' && go fs' as
+  ok fs0 && go fs0 acts
+
+/-- errno names of failures the KERNEL decides (not injected): rename onto a directory, open in a missing directory -/
+def kernelErrnos (fs0 : KFS) (hf : HFaults) : HFaults :=
+  { hf with er := (if fs0 dstQ = some .dir then "DIR" else hf.er), eo := (if hf.o = 1 then hf.eo else "ENOENT") }
+
 /-- every prefix: the destination is the old state or the state at the end of the run -/
 def readerOkH (umask : Nat) (dq : Path) (fs0 : FS) (acts : List Act2) : Bool :=
   let final := run2 umask fs0 acts dq
@@ -494,6 +568,30 @@ def step (st : St) (line : String) : St × String :=
         | e => "create:" ++ showRes2 e hf.eo
       (st, s!"seq={showSeqH dstQ hf r.2.2} res={res} dst={showState (fs dstQ)} tmp={showTmp fs r.2.2} reader={if readerOkH um dstQ fs0 r.2.2 then "ok" else "BAD"}")
     | _, _, _, _, _ => (st, "bad-op")
+  | ["histk", old, um, mode, ops, faults] =>
+    -- the kernel with node kinds (Model/SafeFileKinds.lean): every kind of destination
+    match parseOldK? old, parseOct? um, parseOct? mode, parseToks? ops, parseHFaults? faults with
+    | some (fs0, pm), some um, some mode, some toks, some hf =>
+      let h := histRunK um mode fs0 pm toks hf
+      let hk := kernelErrnos fs0 hf
+      let fs := runK um fs0 h.acts
+      let res :=
+        if h.created then (if h.ops.isEmpty then "-" else ",".intercalate ((h.ops.zip h.res).map fun (o, x) => resH hk o x))
+        else "create:errno:" ++ hk.eo
+      (st, s!"seq={showSeqH dstQ hk h.acts} res={res} dst={showStateK fs dstQ} tmp={showTmpK fs h.acts} reader={if readerOkK um dstQ fs0 h.acts then "ok" else "BAD"} target={showNode (fs tgtQ)}")
+    | _, _, _, _, _ => (st, "bad-op")
+  | ["hkillk", old, um, mode, ops, faults, name, j] =>
+    match parseOldK? old, parseOct? um, parseOct? mode, parseToks? ops, parseHFaults? faults, j.toNat? with
+    | some (fs0, pm), some um, some mode, some toks, some hf, some j =>
+      let hf := match name with
+        | "open" => { hf with o := 0 } | "write" => { hf with w := 0 } | "close" => { hf with c := 0 }
+        | "rename" => { hf with r := 0 } | "unlink" => { hf with u := 0 } | _ => hf
+      let h := histRunK um mode fs0 pm toks hf
+      let hk := kernelErrnos fs0 hf
+      let acts := h.acts.take (killIndex2 h.acts name j)
+      let fs := runK um fs0 acts
+      (st, s!"seq={showSeqH dstQ hk acts} dst={showStateK fs dstQ} tmp={showTmpK fs acts} reader={if readerOkK um dstQ fs0 h.acts then "ok" else "BAD"} target={showNode (fs tgtQ)}")
+    | _, _, _, _, _, _ => (st, "bad-op")
   | ["hkill", old, um, mode, ops, faults, name, j] =>
     match parseOld? old, parseOct? um, parseOct? mode, parseToks? ops, parseHFaults? faults, j.toNat? with
     | some old, some um, some mode, some toks, some hf, some j =>
